@@ -56,6 +56,11 @@ func judgeOracles(o fsOpts, hist *h.History, m []h.ModelStep, res *result) {
 		for _, p := range o.oracles {
 			res.OracleChecks[p]++
 		}
+		if has(o.oracles, "C02") && i < len(m) {
+			if msg := judgeC02(st, m[i]); msg != "" {
+				st.OracleMsgs = append(st.OracleMsgs, "C02\x00"+msg)
+			}
+		}
 		for _, pm := range st.OracleMsgs {
 			parts := strings.SplitN(pm, "\x00", 2)
 			f := OracleFail{Property: parts[0], Hist: hist.ID, Step: i, What: parts[1], Triggers: append([]string{}, fired...),
@@ -159,4 +164,60 @@ func readAt(path string, off, n int64) ([]byte, error) {
 	buf := make([]byte, n)
 	_, err = io.ReadFull(io.NewSectionReader(f, off, n), buf)
 	return buf, err
+}
+
+// ---------------------------------------------------------------------------------------
+// C02: result class and visible tree equal those of the reference filesystem (the Lean
+// `RefFs`, driven with the same calls by the driver).
+func judgeC02(st h.Step, m h.ModelStep) string {
+	if m.RefRes != "-" && m.RefRes != "" {
+		got := st.Res
+		if got != m.RefRes {
+			return fmt.Sprintf("%s returned %s, the reference filesystem returns %s", st.Call.Method, got, m.RefRes)
+		}
+	}
+	if st.TreeE != "" {
+		return "walking the tree through the API failed: " + st.TreeE
+	}
+	if st.Tree == nil {
+		return ""
+	}
+	if len(st.Tree) != len(m.Tree) {
+		return fmt.Sprintf("tree has %d entries, the reference has %d: %s", len(st.Tree), len(m.Tree), firstTreeDiff(st.Tree, m.Tree))
+	}
+	for i := range st.Tree {
+		if st.Tree[i] != m.Tree[i] {
+			return "tree differs from the reference: " + firstTreeDiff(st.Tree, m.Tree)
+		}
+	}
+	return ""
+}
+
+func firstTreeDiff(a, b []string) string {
+	in := func(xs []string, x string) bool {
+		for _, y := range xs {
+			if y == x {
+				return true
+			}
+		}
+		return false
+	}
+	show := func(l string) string {
+		f := strings.Split(l, "\t")
+		if len(f) < 10 {
+			return l
+		}
+		return fmt.Sprintf("%q kind=%s size=%s perm=%s uid=%s gid=%s mtime=%s hash=%s", h.DecName(f[1]), f[2], f[3], f[4], f[5], f[6], f[7], f[9])
+	}
+	for _, x := range a {
+		if !in(b, x) {
+			return "implementation shows " + show(x)
+		}
+	}
+	for _, x := range b {
+		if !in(a, x) {
+			return "reference shows " + show(x)
+		}
+	}
+	return "order differs"
 }
